@@ -18,13 +18,14 @@ CFG = {
     # C03 is about crashes: of the borrowed components' oracles only the panic clauses count here
     # (their other clauses are decided by the owning property's check)
     "oracle_filter_re": r"(?i)panic|runtime error|index out of range|slice bounds|nil pointer|fault|crash|allocat",
-    "corpus_from": {"frag": "C05", "sniff": "C17", "gecko": "C14"},
+    "corpus_from": {"frag": "C05", "defrag": "C05", "sniff": "C17", "gecko": "C14", "punchconn": "C20", "punchcodec": "C20", "salamander": "C13"},
     "gen_modules": ["core", "extras"],
     "level": "proof",
     "streams": [
         {"mod": "extras", "component": "speedtest", "driver": "speedtest", "n": {"quick": 3000, "thorough": 100000}},
         # the decoders owned by other properties, re-run here with their malformed/mutated streams (panic oracle + differential)
         {"mod": "core", "component": "frag", "driver": "frag", "n": {"quick": 3000, "thorough": 100000}},
+        {"mod": "core", "component": "defrag", "driver": "defrag", "reset_re": "^reset", "n": {"quick": 6000, "thorough": 200000}},
         {"mod": "core", "component": "frame", "driver": "frame", "n": {"quick": 3000, "thorough": 100000}},
         {"mod": "extras", "component": "salamander", "driver": "salamander", "n": {"quick": 1500, "thorough": 20000}},
         {"mod": "extras", "component": "sniff", "driver": "sniff", "n": {"quick": 1500, "thorough": 40000}},
